@@ -107,7 +107,7 @@ def run_case(ctx, res, case, lines, post):
     except Exception as e:  # noqa: BLE001
         res.failures.append({'kind': 'activation-raised', 'input': case, 'observed': repr(e)[:300]})
         return
-    names, pts, kinds = c05.points_for(rng, comp, 12 if ctx.quick else 24)
+    names, pts, kinds = c05.points_for(rng, comp, 14 if ctx.quick else 28)
     in_vars, out_vars = holder['in_vars'], holder['out_vars']
     allg = [list(comp.training_data.x_grids[n]) for n in names]
     for k, p in enumerate(pts):   # a coordinate strictly inside the snapping band (not on the node)?
